@@ -591,7 +591,7 @@ def run(ctx, report: Report) -> None:
                              f'escape(): for {where} the output {tpl} does not decode back to the character: {why}')
 
     # ---- R4: no partial operation ------------------------------------------------------------------------------
-    r4 = report.rule('C10-R4', 'escape() contains no partial operation', floor=10)
+    r4 = report.rule('C10-R4', 'escape() contains no partial operation', floor=12)
     # (a) exception-flow analysis from escape(): every partial operation of the catalogue (int / chr / format / dict keys / next /
     #     possibly-unbound locals / standard-library functions that raise on part of their domain) in the code reachable from it is
     #     discharged where it stands
